@@ -176,6 +176,7 @@ func mustPassChecked(w *World, r *Report, rule string, f *ssa.Function, target *
 func rulesC07(w *World, r *Report) {
 	r.Rule("C07.R1", "must-pass-through (checked): NewHeader passes validateAggregationMethod, validateXFilesFactor, fillOffset and ArchiveInfoList.validate; ParseArchiveInfoList passes fillOffset and validate; Header.TakeFrom passes both scalar validators and validate; Create passes NewHeader; Open passes readHeader which passes Header.TakeFrom; all reach the one ArchiveInfoList.validate", 11)
 	ruleCreatePassesLayout(w, r, "C07.R1")
+	ruleLayoutOrderKept(w, r, "C07.R1", "ParseArchiveInfoList", "NewHeader", "Header.TakeFrom", "Create")
 	ruleHeaderFirstRead(w, r, "C07.R1")
 	vAgg := fn(w.Lib, "validateAggregationMethod")
 	vXff := fn(w.Lib, "validateXFilesFactor")
@@ -777,6 +778,7 @@ func ruleAggregateShape(w *World, r *Report, rule string) {
 				}
 				// find the conditional update: a phi (or the same) merging acc and elem under a comparison
 				okCmp := false
+				rangeBad := ""
 				for _, b := range ag.Blocks {
 					if !(entry == b || entry.Dominates(b)) || len(b.Instrs) == 0 {
 						continue
@@ -801,15 +803,23 @@ func ruleAggregateShape(w *World, r *Report, rule string) {
 					mirror := map[token.Token]token.Token{token.GTR: token.LSS, token.LSS: token.GTR}
 					if isElem(xs) && !isElem(ys) && bo.Op == want {
 						okCmp = true
+						if why := elemNotOfRangedSlice(w, ag, bo.X); why != "" {
+							rangeBad = why
+						}
 					}
 					if isElem(ys) && !isElem(xs) && bo.Op == mirror[want] {
 						okCmp = true
+						if why := elemNotOfRangedSlice(w, ag, bo.Y); why != "" {
+							rangeBad = why
+						}
 					}
 					_ = upd
 				}
 				_ = accPhi
-				ok = hasInit && okCmp
-				if !hasInit {
+				ok = hasInit && okCmp && rangeBad == ""
+				if rangeBad != "" {
+					detail = rangeBad
+				} else if !hasInit {
 					detail = "the accumulator does not start from the first known value (" + got + ")"
 				} else if !okCmp {
 					detail = "the accumulator is not replaced under the right strict comparison"
@@ -831,6 +841,52 @@ func ruleAggregateShape(w *World, r *Report, rule string) {
 		okSum = regexp.MustCompile(`^phi\(\(@ \+:float64 p0\[(\(i\d+ \+ 1\)|i\d+)\]\)\|0\)$`).MatchString(got) || regexp.MustCompile(`^phi\(\(p0\[(\(i\d+ \+ 1\)|i\d+)\] \+:float64 @\)\|0\)$`).MatchString(got)
 		r.Check(okSum, rule, "sum", w.instrPos(rets[0]), "0 plus every element", "sum does not start at 0 and add every element: "+got)
 	}
+}
+
+// elemNotOfRangedSlice: elem is X[idx] where idx is a loop counter bounded by len(S); "" when X is S itself (the loop
+// reads the elements of the slice it runs over), otherwise what differs — running over values[1:] while indexing values
+// with the same counter never looks at the last element.
+func elemNotOfRangedSlice(w *World, f *ssa.Function, elem ssa.Value) string {
+	if u, ok := elem.(*ssa.UnOp); ok && u.Op == token.MUL {
+		elem = u.X
+	}
+	var x, idx ssa.Value
+	switch t := elem.(type) {
+	case *ssa.IndexAddr:
+		x, idx = t.X, t.Index
+	case *ssa.Index:
+		x, idx = t.X, t.Index
+	default:
+		return ""
+	}
+	why := ""
+	eachInstr(f, func(in ssa.Instruction) {
+		bo, ok := in.(*ssa.BinOp)
+		if !ok || !isCmp(bo.Op) {
+			return
+		}
+		var bound ssa.Value
+		switch {
+		case bo.X == idx:
+			bound = bo.Y
+		case bo.Y == idx:
+			bound = bo.X
+		default:
+			return
+		}
+		lc, ok := bound.(*ssa.Call)
+		if !ok {
+			return
+		}
+		if bi, isBi := lc.Common().Value.(*ssa.Builtin); !isBi || bi.Name() != "len" {
+			return
+		}
+		s := stripChangeType(lc.Common().Args[0])
+		if s != stripChangeType(x) && newExprCtx(w).expr(s) != newExprCtx(w).expr(x) {
+			why = "the loop runs over " + newExprCtx(w).expr(s) + " but reads " + newExprCtx(w).expr(x) + " with the same counter: not every known value is looked at"
+		}
+	})
+	return why
 }
 
 // ---------- C03 ----------
@@ -874,42 +930,6 @@ func rulesC03(w *World, r *Report) {
 	if less := fn(w.Lib, "Points.Less"); less != nil && len(less.Params) == 3 {
 		bad := ""
 		n := 0
-		timeOf := func(v ssa.Value) int {
-			// pp[k].Time, loaded -> index of the parameter k
-			var elem ssa.Value
-			if fv, isF := v.(*ssa.Field); isF {
-				// a copy of the element: (*&pp[k]).Time
-				st, isSt := fv.X.Type().Underlying().(*types.Struct)
-				u, isU := fv.X.(*ssa.UnOp)
-				if !isSt || st.Field(fv.Field).Name() != "Time" || !isU || u.Op != token.MUL {
-					return -1
-				}
-				elem = u.X
-			} else {
-				u, ok := v.(*ssa.UnOp)
-				if !ok || u.Op != token.MUL {
-					return -1
-				}
-				fa, ok := u.X.(*ssa.FieldAddr)
-				if !ok {
-					return -1
-				}
-				if _, name, ok2 := fieldAddrOf(fa); !ok2 || name != "Time" {
-					return -1
-				}
-				elem = fa.X
-			}
-			ia, ok := elem.(*ssa.IndexAddr)
-			if !ok || ia.X != ssa.Value(less.Params[0]) {
-				return -1
-			}
-			for k := 1; k <= 2; k++ {
-				if ia.Index == ssa.Value(less.Params[k]) {
-					return k
-				}
-			}
-			return -1
-		}
 		for _, ret := range returnsOf(less) {
 			n++
 			vals, complete := resultValues(ret, 0)
@@ -917,16 +937,9 @@ func rulesC03(w *World, r *Report) {
 				bad = "the result is not a single comparison"
 				continue
 			}
-			bo, ok := vals[0].(*ssa.BinOp)
-			if !ok {
-				bad = "the result is not a comparison of the two times"
-				continue
-			}
-			x, y := timeOf(bo.X), timeOf(bo.Y)
-			switch {
-			case bo.Op == token.LSS && x == 1 && y == 2, bo.Op == token.GTR && x == 2 && y == 1:
-			default:
-				bad = "the result is not pp[i].Time < pp[j].Time on the times themselves (a difference taken in a narrower or signed type wraps for times far apart, so the batch is no longer ascending and the backward partition drops in-range points)"
+			// canonical form (comparisons are printed with < and <=, locals holding a copy of an element are seen through)
+			if got := newExprCtx(w).expr(vals[0]); got != "(p0[p1].Time < p0[p2].Time)" {
+				bad = "the result is " + shortExpr(got) + ", not pp[i].Time < pp[j].Time on the times themselves (a difference taken in a narrower or signed type wraps for times far apart, so the batch is no longer ascending and the backward partition drops in-range points)"
 			}
 		}
 		r.Check(bad == "" && n > 0, "C03.R1", "Points.Less:orders-by-time", w.pos(less.Pos()), "Less(i, j) is pp[i].Time < pp[j].Time", "Points.Less: "+bad)
